@@ -225,6 +225,11 @@ impl Typer
 		}
 	}
 
+	pub fn poison_constant(&mut self, name: &Identifier)
+	{
+		self.poison_symbol(name, Poison::Poisoned);
+	}
+
 	fn retrieve_named_length(&mut self, name: Identifier) -> Poisonable<usize>
 	{
 		match self.calculated_named_lengths.get(&name.resolution_id)
